@@ -229,8 +229,11 @@ func FieldOfValue(v ssa.Value) (FieldRef, bool) {
 
 // Is reports whether the field reference is Struct.Name of the given package-qualified struct.
 func (f FieldRef) Is(pkgpath, typ, field string) bool {
-	if f.Name != field || f.Struct == nil || f.Struct.Obj().Pkg() == nil || f.Struct.Obj().Pkg().Path() != pkgpath {
+	if f.Struct == nil || f.Struct.Obj().Pkg() == nil || f.Struct.Obj().Pkg().Path() != pkgpath {
 		return false
+	}
+	if f.Name != field {
+		return f.Struct.Obj().Name() == typ && renamedField(f.Struct, typ, field) == f.Name
 	}
 	if f.Struct.Obj().Name() == typ {
 		return true
@@ -366,4 +369,92 @@ func PosOf(in ssa.Instruction) token.Pos {
 		}
 	}
 	return in.Parent().Pos()
+}
+
+// fieldRoles: what an unexported anchor field is, so that it is still found after a rename: when the struct has no
+// field of the frozen name, the single field of the struct that satisfies the predicate takes the role.
+var fieldRoles = map[string]func(types.Type) bool{
+	"Server.wg":     func(t types.Type) bool { return IsNamed(t, "sync", "WaitGroup") },
+	"Server.closer": func(t types.Type) bool { _, ok := t.Underlying().(*types.Chan); return ok },
+	"Server.types": func(t types.Type) bool {
+		sl, ok := t.(*types.Slice)
+		if !ok {
+			return false
+		}
+		_, isF := sl.Elem().Underlying().(*types.Signature)
+		return isF
+	},
+	"Writer.err":   IsErrorType,
+	"Writer.frame": func(t types.Type) bool { return IsNamed(t, "bytes", "Buffer") },
+	"Reader.header": func(t types.Type) bool {
+		a, ok := t.(*types.Array)
+		return ok && a.Len() == 4
+	},
+	"DefaultStatementCache.statements": func(t types.Type) bool { _, ok := t.Underlying().(*types.Map); return ok },
+	"DefaultPortalCache.portals":       func(t types.Type) bool { _, ok := t.Underlying().(*types.Map); return ok },
+	"dataWriter.columns":               func(t types.Type) bool { n := NamedOf(t); return n != nil && n.Obj().Name() == "Columns" },
+	"Statement.parameters":             func(t types.Type) bool { _, ok := t.(*types.Slice); return ok },
+	"PreparedStatement.parameters":     func(t types.Type) bool { _, ok := t.(*types.Slice); return ok },
+	"Statement.columns":                isNamedT("Columns"),
+	"PreparedStatement.columns":        isNamedT("Columns"),
+	"Statement.fn":                     isNamedT("PreparedStatementFn"),
+	"PreparedStatement.fn":             isNamedT("PreparedStatementFn"),
+	"Portal.statement":                 func(t types.Type) bool { _, ok := t.(*types.Pointer); return ok },
+	"Portal.parameters":                sliceOfT("Parameter"),
+	"Portal.formats":                   sliceOfT("FormatCode"),
+	"dataWriter.formats":               sliceOfT("FormatCode"),
+	"BinaryCopyReader.scanners":        sliceOfT("Scanner"),
+	"BinaryCopyReader.reader":          func(t types.Type) bool { p, ok := t.(*types.Pointer); return ok && isNamedT("CopyReader")(p.Elem()) },
+}
+
+func isNamedT(name string) func(types.Type) bool {
+	return func(t types.Type) bool { n, ok := t.(*types.Named); return ok && n.Obj().Name() == name }
+}
+
+func sliceOfT(name string) func(types.Type) bool {
+	return func(t types.Type) bool {
+		sl, ok := t.(*types.Slice)
+		return ok && isNamedT(name)(sl.Elem())
+	}
+}
+
+// CanonFieldName gives the frozen name of an anchor field that was renamed (see fieldRoles), or the name itself.
+func CanonFieldName(named *types.Named, actual string) string {
+	if named == nil {
+		return actual
+	}
+	tn := named.Obj().Name()
+	for key := range fieldRoles {
+		if len(key) > len(tn)+1 && key[:len(tn)+1] == tn+"." {
+			if renamedField(named, tn, key[len(tn)+1:]) == actual {
+				return key[len(tn)+1:]
+			}
+		}
+	}
+	return actual
+}
+
+func renamedField(named *types.Named, typ, field string) string {
+	role, ok := fieldRoles[typ+"."+field]
+	if !ok {
+		return ""
+	}
+	st, ok := named.Underlying().(*types.Struct)
+	if !ok {
+		return ""
+	}
+	found := ""
+	for i := 0; i < st.NumFields(); i++ {
+		fl := st.Field(i)
+		if fl.Name() == field {
+			return "" // the frozen name exists: no renaming
+		}
+		if role(fl.Type()) {
+			if found != "" {
+				return "" // ambiguous
+			}
+			found = fl.Name()
+		}
+	}
+	return found
 }
